@@ -25,6 +25,7 @@ H = "CPP/Clipper2Lib/include/clipper2/"
 
 CONTROLS = {
     "C01": [
+        ('HI_PRECISION intersection: hitx adds where it must subtract', 'CPP/Clipper2Lib/include/clipper2/clipper.core.h', '      double hitx = ((ln1dx * ln1c) - (ln2dx * ln0c)) / det;\n      double hity = ((ln2dy * ln0c) - (ln1dy * ln1c)) / det;\n\n      ip.x = originx + (T)nearbyint(hitx);', '      double hitx = ((ln1dx * ln1c) + (ln2dx * ln0c)) / det;\n      double hity = ((ln2dy * ln0c) - (ln1dy * ln1c)) / det;\n\n      ip.x = originx + (T)nearbyint(hitx);', 'POLY.intersect'),
         ("winding counts narrowed to 8 bits", H + "clipper.engine.h", "\t\tint wind_cnt = 0;", "\t\tint8_t wind_cnt = 0;", "TYPE.wind-count"),
         ("clamped intersection takes its x at the top of the scanbeam", E, "        if (abs_dx1 < abs_dx2) ip.x = TopX(e1, ip.y);\n        else ip.x = TopX(e2, ip.y);", "        if (abs_dx1 < abs_dx2) ip.x = TopX(e1, top_y);\n        else ip.x = TopX(e2, top_y);", "IP.on-edge"),
         ("wrong cell Intersection/Positive", E, "        return (e.wind_cnt2 > 0);", "        return (e.wind_cnt2 >= 0);", "T.closed"),
@@ -40,6 +41,7 @@ CONTROLS = {
     ],
     "C01x": [],
     "C03": [
+        ("IsCollinear's last factor measured from pt1", 'CPP/Clipper2Lib/include/clipper2/clipper.core.h', '    const auto d = pt2.x - sharedPt.x;', '    const auto d = pt2.x - pt1.x;', 'POLY.cross'),
         ("DoSplitOp inserts the crossing point although it equals prevOp", E, "    if (ip == prevOp->pt || ip == nextNextOp->pt)", "    if (ip == nextNextOp->pt)", "SPLIT.no-duplicate"),
         ("point equality compares z as well", H + "clipper.core.h", "      return a.x == b.x && a.y == b.y;", "#ifdef USINGZ\n      return a.x == b.x && a.y == b.y && a.z == b.z;\n#else\n      return a.x == b.x && a.y == b.y;\n#endif", "T.point-equality"),
         ("closed path built without cleaning (D engine)", E,
@@ -55,6 +57,7 @@ CONTROLS = {
          "        if (using_polytree_)\n        {\n          SetOwner(outrec, prevHotEdge->outrec);\n          outrec->is_open = false;\n        }", "CONFINE"),
     ],
     "C05": [
+        ("ClipperD's closed-only Execute builds without an open target", 'CPP/Clipper2Lib/include/clipper2/clipper.engine.h', '\t\t\tPathsD dummy;\n\t\t\treturn Execute(clip_type, fill_rule, closed_paths, dummy);', '#ifdef USINGZ\n\t\t\tCheckCallback();\n#endif\n\t\t\tif (ExecuteInternal(clip_type, fill_rule, false))\n\t\t\t\tBuildPathsD(closed_paths, nullptr);\n\t\t\tCleanUp();\n\t\t\treturn succeeded_;', 'OPEN.flag'),
         ("BuildTree64 builds open pieces as closed", E, "        if (BuildPath64(outrec->pts, reverse_solution_, true, path))\n          open_paths.emplace_back(std::move(path));\n        continue;", "        if (BuildPath64(outrec->pts, reverse_solution_, false, path))\n          open_paths.emplace_back(std::move(path));\n        continue;", "OPEN.flag"),
         ("BuildPathsD appends to what the caller's open vector held", E, "      solutionOpen->resize(0);\n      solutionOpen->reserve(outrec_list_.size());\n    }\n\n    // outrec_list_.size() is not static here because\n    // CleanCollinear below can indirectly add additional\n    // OutRec (via FixOutRecPts)",
          "      solutionOpen->reserve(outrec_list_.size());\n    }\n\n    // outrec_list_.size() is not static here because\n    // CleanCollinear below can indirectly add additional\n    // OutRec (via FixOutRecPts)", "OUTPUT.reset"),
@@ -81,6 +84,7 @@ CONTROLS = {
         ("sum computed with the operands exchanged", H + "clipper.minkowski.h", "      if (patLen == 0 || pathLen == 0) return Paths64();\n", "      if (patLen == 0 || pathLen == 0) return Paths64();\n      if (isSum && pathLen > patLen) return Minkowski(path, pattern, true, isClosed);\n", "MINK.roles"),
     ],
     "C07": [
+        ('miter threshold derived once in the constructor only', 'CPP/Clipper2Lib/src/clipper.offset.cpp', '\t\ttemp_lim_ = (miter_limit_ <= 1) ?\n', '\t\tif (temp_lim_ == 0) temp_lim_ = (miter_limit_ <= 1) ?\n', 'LIMIT.rederived'),
         ("mitered vertex differs in the USINGZ build only", O, "#ifdef USINGZ\n    path_out.emplace_back(\n\t\tpath[j].x + (norms[k].x + norms[j].x) * q,\n\t\tpath[j].y + (norms[k].y + norms[j].y) * q,\n        path[j].z);", "#ifdef USINGZ\n    path_out.emplace_back(\n\t\tpath[j].x + (norms[k].x + norms[j].x) * q,\n\t\tpath[j].y + (norms[k].y + norms[k].y) * q,\n        path[j].z);", "ZERASE"),
         ("delta used without abs for open paths", O, "group_delta_ = std::abs(delta_);// *0.5;", "group_delta_ = delta_;", "DELTA.abs-only"),
         ("end cap differs from start cap", O, "DoBevel(path, highI, highI);", "DoSquare(path, highI, highI);", "CAP.table"),
@@ -104,6 +108,7 @@ CONTROLS = {
         ("results_ not cleared per polyline", R, "          result.emplace_back(std::move(tmp));\n      }\n      results_.clear();\n\n      op_container_ = std::deque<OutPt2>();", "          result.emplace_back(std::move(tmp));\n      }\n\n      op_container_ = std::deque<OutPt2>();", "CLEAN"),
     ],
     "C10": [
+        ('transform destination sized by the other operand', 'CPP/Clipper2Lib/include/clipper2/clipper.minkowski.h', '          Path64 path2(pattern.size());\n          std::transform(pattern.cbegin(), pattern.cend(),\n            path2.begin(), [p](const Point64& pt2) {return p + pt2; });', '          Path64 path2(path.size());\n          std::transform(pattern.cbegin(), pattern.cend(),\n            path2.begin(), [p](const Point64& pt2) {return p + pt2; });', 'DEST.sized'),
         ("BuildTreeD walks outrec_list_ with a range-for while CheckBounds can append to it", E, "    // BuildPathD below can indirectly add additional OutRec //#607\n    for (size_t i = 0; i < outrec_list_.size(); ++i)\n    {\n      OutRec* outrec = outrec_list_[i];",
          "    for (OutRec* outrec : outrec_list_)\n    {", "ITER.stable"),
         ("empty path reaches OffsetOpenPath again", O, "\t\tif (pathLen == 0) continue; // nothing to offset (and no vertex to index)\n", "", "GUARD.nonempty"),
@@ -118,6 +123,7 @@ CONTROLS = {
         ("DisposeOutPt deletes before unlinking", E, "    op->prev->next = op->next;\n    op->next->prev = op->prev;\n    delete op;", "    delete op;\n    op->prev->next = op->next;\n    op->next->prev = op->prev;", "LINK.consistent-at-throw"),
     ],
     "C11": [
+        ('RectClip(PathsD) validates through the overload that drops the error', 'CPP/Clipper2Lib/include/clipper2/clipper.h', '    CheckPrecisionRange(precision, error_code);\n    if (error_code) return PathsD();\n    const double scale = std::pow(10, precision);\n    Rect64 r = ScaleRect<int64_t, double>(rect, scale);\n    RectClip64 rc(r);', '    CheckPrecisionRange(precision);\n    if (error_code) return PathsD();\n    const double scale = std::pow(10, precision);\n    Rect64 r = ScaleRect<int64_t, double>(rect, scale);\n    RectClip64 rc(r);', 'R2.error-consumed'),
         ("first vertex never reaches the maximum of GetBounds", H + "clipper.core.h", "      if (p.x < xmin) xmin = static_cast<T>(p.x);\n      if (p.x > xmax) xmax = static_cast<T>(p.x);\n      if (p.y < ymin) ymin = static_cast<T>(p.y);\n      if (p.y > ymax) ymax = static_cast<T>(p.y);\n    }\n    return Rect<T>(xmin, ymin, xmax, ymax);\n  }\n\n  template <typename T, typename T2>\n  Rect<T> GetBounds(const Paths<T2>& paths)",
          "      if (p.x < xmin) xmin = static_cast<T>(p.x);\n      else if (p.x > xmax) xmax = static_cast<T>(p.x);\n      if (p.y < ymin) ymin = static_cast<T>(p.y);\n      if (p.y > ymax) ymax = static_cast<T>(p.y);\n    }\n    return Rect<T>(xmin, ymin, xmax, ymax);\n  }\n\n  template <typename T, typename T2>\n  Rect<T> GetBounds(const Paths<T2>& paths)", "BOUNDS.minmax"),
         ("precision no longer validated in RectClip(PathsD)", H + "clipper.h",
@@ -138,6 +144,7 @@ CONTROLS = {
          "\t\tif (!group.lowest_path_idx.has_value()) delta_ = std::abs(delta_);\n\t\tgroup_delta_ = (group.is_reversed) ? -delta_ : delta_;", "LOOP"),
     ],
     "C13": [
+        ("CrossProductSign's last factor measured from pt1", 'CPP/Clipper2Lib/include/clipper2/clipper.core.h', '    const auto c = pt2.y - pt1.y;\n    const auto d = pt3.x - pt2.x;\n\n#if', '    const auto c = pt2.y - pt1.y;\n    const auto d = pt3.x - pt1.x;\n\n#if', 'POLY.cross'),
         ("TopX rounds in single precision", E, "return ae.bot.x + static_cast<int64_t>(nearbyint(ae.dx * (currentY - ae.bot.y)));", "return ae.bot.x + static_cast<int64_t>(nearbyintf(ae.dx * (currentY - ae.bot.y)));", "FLOAT.double-only"),
         ("comparator not strict", E, "        return locMin2->vertex->pt.x > locMin1->vertex->pt.x;", "        return locMin2->vertex->pt.x >= locMin1->vertex->pt.x;", "T.comparator"),
         ("Negative not the mirror image of Positive", E, "      case FillRule::Negative:\n        return (e.wind_cnt2 < 0);", "      case FillRule::Negative:\n        return (e.wind_cnt2 <= 0);", "T.symmetry"),
@@ -151,6 +158,7 @@ CONTROLS = {
          "\t\tfriend class ClipperBase;\n\t\tmutable LocalMinimaList minima_list_;\n\t\tstd::vector<Vertex*> vertex_lists_;\n\t\tvoid AddLocMin", "R2b.container-read-only"),
     ],
     "C15": [
+        ('RectClipLines keeps its intersection points across vertices', 'CPP/Clipper2Lib/src/clipper.rectclip.cpp', '    while (i <= highI)\n    {\n      prev = loc;\n      GetNextLocation(path, loc, i, highI);\n      if (i > highI) break;\n      Point64 ip, ip2;\n      Point64 prev_pt = path[static_cast<size_t>(i - 1)];', '    Point64 ip, ip2;\n    while (i <= highI)\n    {\n      prev = loc;\n      GetNextLocation(path, loc, i, highI);\n      if (i > highI) break;\n      Point64 prev_pt = path[static_cast<size_t>(i - 1)];', 'Z.out-point-fresh'),
         ("CheckCallback keeps a proxy that is already bound", H + "clipper.engine.h", "\t\tvoid CheckCallback()\n\t\t{\n", "\t\tvoid CheckCallback()\n\t\t{\n\t\t\tif (ClipperBase::zCallback_) return;\n", "ZCB.rebound"),
         ("one crossing vertex no longer reaches SetZ", E, "      resultOp = AddOutPt(e2, pt);\n      if (zCallback_) SetZ(e1, e2, resultOp->pt);", "      resultOp = AddOutPt(e2, pt);", "Z.must-follow"),
         ("z influences x in the USINGZ build only", O, "\treturn Point64(pt.x + norm.x * delta, pt.y + norm.y * delta, pt.z);",
@@ -174,12 +182,18 @@ CONTROLS = {
          "  ClipperOffset clip_offset( miter_limit,\n    arc_tolerance, false, reverse_solution);", "  ClipperOffset clip_offset( miter_limit,\n    arc_tolerance, reverse_solution);", "FORWARD.param"),
     ],
     "C18": [
+        ('DistanceSqr mixes the axes', 'CPP/Clipper2Lib/include/clipper2/clipper.core.h', '    return Sqr(pt1.x - pt2.x) + Sqr(pt1.y - pt2.y);', '    return Sqr(pt1.x - pt2.x) + Sqr(pt1.y - pt2.x);', 'POLY.measure'),
+        ('segment intersection parameter uses the far end of the second segment', 'CPP/Clipper2Lib/include/clipper2/clipper.core.h', '    double t = ((ln1a.x - ln2a.x) * dy2 - (ln1a.y - ln2a.y) * dx2) / det;', '    double t = ((ln1a.x - ln2b.x) * dy2 - (ln1a.y - ln2a.y) * dx2) / det;', 'POLY.intersect'),
+        ("CrossProductSign's second factor measured from pt1", 'CPP/Clipper2Lib/include/clipper2/clipper.core.h', '    const auto b = pt3.y - pt2.y;', '    const auto b = pt3.y - pt1.y;', 'POLY.cross'),
+        ('128-bit products compared after truncation to 64 bits', 'CPP/Clipper2Lib/include/clipper2/clipper.core.h', '    return ab == cd;\n#else', '    return static_cast<int64_t>(ab) == static_cast<int64_t>(cd);\n#else', 'TYPE.wide-kept'),
         ("bounding-box twin reads the other axis (HI_PRECISION)", H + "clipper.core.h", "    T bb0miny = CC_MIN(ln1a.y, ln1b.y);", "    T bb0miny = CC_MIN(ln1a.x, ln1b.x);", "AXIS.mirror"),
         ("wrap-around predecessor taken from the moved end marker", H + "clipper.core.h", "        prev = polygon.cend() - 1; //nb: NOT cend (since might equal first)", "        prev = cend - 1;", "WRAP.container-end"),
         ("portable sign logic compares hi words the wrong way", H + "clipper.core.h", "      else result = (ab.hi > cd.hi) ? 1 : -1;", "      else result = (ab.hi < cd.hi) ? 1 : -1;", "P.portable-sign"),
         ("partial sum can wrap", H + "clipper.core.h", "    const uint64_t x2 = hi(a) * lo(b) + hi(x1);", "    const uint64_t x2 = hi(a) * lo(b) + x1;", "P.multiply-no-wrap"),
     ],
     "C20": [
+        ('perpendicular distance divides by a mixed term', 'CPP/Clipper2Lib/include/clipper2/clipper.core.h', '    return Sqr(a * d - c * b) / (c * c + d * d);', '    return Sqr(a * d - c * b) / (c * c + d * c);', 'POLY.measure'),
+        ('a vertex that lowers the minimum cannot raise the maximum (GetBounds(Path))', 'CPP/Clipper2Lib/include/clipper2/clipper.core.h', '      if (p.x < xmin) xmin = p.x;\n      if (p.x > xmax) xmax = p.x;\n      if (p.y < ymin) ymin = p.y;\n      if (p.y > ymax) ymax = p.y;\n    }\n    return Rect<T>(xmin, ymin, xmax, ymax);\n  }\n\n  template <typename T>\n  Rect<T> GetBounds(const Paths<T>& paths)', '      if (p.x < xmin) xmin = p.x;\n      else if (p.x > xmax) xmax = p.x;\n      if (p.y < ymin) ymin = p.y;\n      if (p.y > ymax) ymax = p.y;\n    }\n    return Rect<T>(xmin, ymin, xmax, ymax);\n  }\n\n  template <typename T>\n  Rect<T> GetBounds(const Paths<T>& paths)', 'BOUNDS.minmax'),
         ("prior2 taken before the swap in SimplifyPath", H + "clipper.h", "        prior2 = prior;\n        prior = curr;", "        prior2 = GetPrior(prior, high, flags);\n        prior = curr;", "NEIGHBOURS.fresh"),
         ("inner scan of SimplifyPath uses >= where the outer test uses >", H + "clipper.h", "        } while (curr != start && distSqr[curr] > epsSqr);", "        } while (curr != start && distSqr[curr] >= epsSqr);", "EPS.threshold"),
         ("corner test against the raw previous vertex", H + "clipper.h", "      if (!IsCollinear(*prevIt, *srcIt, *(srcIt + 1)))", "      if (!IsCollinear(*(srcIt - 1), *srcIt, *(srcIt + 1)))", "TRIM.last-kept"),
